@@ -16,7 +16,7 @@
 #   M8 commands.c: last byte of every command line stripped, not only CR            -> resume_next_command
 #   M9 qmail-remote.c blast: first dot of a line not stuffed                        -> remote_to_smtpd
 #   M10 straynewline(): flush() removed (451 never reaches the client)              -> smtpd_blast
-from vlib import Obl, Prog
+from vlib import Obl, Prog, borrow
 
 SMTPD = Prog("qmail-smtpd.c", nomain=True)
 REMOTE = Prog("qmail-remote.c", nomain=True)
@@ -118,4 +118,6 @@ def obligations(tier):
                   "exit, qmail_close never called",
             expect_witnesses=["next_command_dispatched", "next_command_4_letters", "next_command_with_argument", "next_after_accept",
                               "bare_lf_refused_nothing_queued", "eof_after_data"]),
-    ]
+    # the DATA command itself: 354 is sent only when the body will then be consumed up to its terminator (queue connection open) -
+    # otherwise the client's message would be read as commands (C07's smtp_data harness, decided here as well)
+    ] + borrow("C07", ["smtp_data"], tier)
